@@ -31,6 +31,10 @@ ASSUMPTIONS = [
     "round-trip calibration (loads(dumps(doc)) == doc); cases they cannot carry are counted "
     "under oracle_unavailable",
     "NaN/Infinity are outside Double's declared default open range: not generated",
+    "bare methods are exercised with ignore_wrappers=True and complex_as=dict only: with wrapper "
+    "documents the key of a bare request would have to be the method name and the class name "
+    "of the argument at once (spyne's own serializer writes the class name, its method lookup "
+    "wants the method name), so no conformant request exists",
     "complex_as=list is exercised for fully populated objects only (a positional form cannot "
     "skip a member) and with ignore_wrappers=True",
 ]
@@ -46,7 +50,11 @@ def cases(tier):
         wrappers = draw(st.booleans()) if complex_as == "dict" else False
         if prot == "msgpackrpc":
             wrappers = False
-        m = draw(spec.methods(U, name="m0", styles=("wrapped",), xml=False))
+        styles = ("wrapped",)
+        if complex_as == "dict" and prot != "msgpackrpc" and not wrappers:
+            # bare: the message is the single argument itself, keyed by the method name
+            styles = ("wrapped", "wrapped", "wrapped", "bare")
+        m = draw(spec.methods(U, name="m0", styles=(draw(st.sampled_from(styles)),), xml=False))
         # positional forms (complex_as=list, msgpack-rpc parameters) cannot omit a member
         vg = values.ValueGen(U, special_floats=False, nil_items=True,
                              full=(complex_as == "list" or prot == "msgpackrpc"))
